@@ -36,6 +36,8 @@ impl Function for Tick {
 
 struct Flag {
     polls: Cell<u64>,
+    /// polls per site label the library passes to `check`
+    sites: std::cell::RefCell<std::collections::BTreeMap<&'static str, u64>>,
     fail_from: Option<u64>,
     cancelled: Arc<AtomicBool>,
     cap: u64,
@@ -45,6 +47,7 @@ impl CancellationFlag for Flag {
     fn check(&self, at: &'static str) -> Result<(), CancellationError> {
         let n = self.polls.get() + 1;
         self.polls.set(n);
+        *self.sites.borrow_mut().entry(at).or_default() += 1;
         if let Some(k) = self.fail_from {
             if n >= k {
                 self.cancelled.store(true, Ordering::Relaxed);
@@ -102,6 +105,7 @@ pub fn case(tape: &[u32]) -> CaseOutcome {
 
     for lazy in [false, true] {
         let mode = if lazy { "lazy" } else { "strict" };
+        let last_sites: std::cell::RefCell<std::collections::BTreeMap<&'static str, u64>> = Default::default();
         let exec = |fail_from: Option<u64>, use_flag: bool| -> Result<(Result<crate::cval::MGraph, String>, bool, u64, u64), LibPanic> {
             let cancelled = Arc::new(AtomicBool::new(false));
             let late = Arc::new(AtomicU64::new(0));
@@ -111,7 +115,7 @@ pub fn case(tape: &[u32]) -> CaseOutcome {
             let mut graph = Graph::new();
             let vars = variables_from(&program.gen.globals, &mut graph, &index);
             let config = ExecutionConfig::new(&functions, &vars).lazy(lazy);
-            let flag = Flag { polls: Cell::new(0), fail_from, cancelled: cancelled.clone(), cap: POLL_CAP };
+            let flag = Flag { polls: Cell::new(0), sites: Default::default(), fail_from, cancelled: cancelled.clone(), cap: POLL_CAP };
             let r = call_lib(|| if use_flag { file.execute_into(&mut graph, &tree, &source, &config, &flag) } else { file.execute_into(&mut graph, &tree, &source, &config, &NoCancellation) })?;
             let (res, is_cancel) = match r {
                 Ok(()) => (observe(&graph, &index).map_err(|e| format!("bad graph: {}", e)), false),
@@ -120,6 +124,7 @@ pub fn case(tape: &[u32]) -> CaseOutcome {
                     (Err(format!("{}", e)), c)
                 }
             };
+            *last_sites.borrow_mut() = flag.sites.borrow().clone();
             Ok((res, is_cancel, flag.polls.get(), late.load(Ordering::Relaxed)))
         };
         let fail_panic = |p: LibPanic| CaseOutcome::Fail(Failure::new(format!("C11:{}:{}", mode, p.signature()), p.message, d(json!({}))));
@@ -128,6 +133,7 @@ pub fn case(tape: &[u32]) -> CaseOutcome {
             Ok(x) => x,
             Err(p) => return fail_panic(p),
         };
+        let sites = last_sites.borrow().clone();
         let (r_plain, _, _, _) = match exec(None, false) {
             Ok(x) => x,
             Err(p) => return fail_panic(p),
@@ -159,6 +165,27 @@ pub fn case(tape: &[u32]) -> CaseOutcome {
             } else {
                 tr.statements + tr.attributes + tr.scan_iterations
             };
+            // per clause, when the poll sites are the ones this reading of the property knows
+            // (a site the harness has never seen switches the per-clause bounds off: counted)
+            const KNOWN_SITES: [&str; 6] = ["executing statement", "executing attribute", "processing scan matches", "processing matches", "evaluating statement", "evaluating value"];
+            if sites.keys().all(|k| KNOWN_SITES.contains(k)) {
+                let at = |k: &str| sites.get(k).copied().unwrap_or(0);
+                let mut clauses = vec![("executed statement", "executing statement", tr.statements), ("attribute", "executing attribute", tr.attributes), ("scan iteration", "processing scan matches", tr.scan_iterations)];
+                if lazy {
+                    clauses.push(("match", "processing matches", tr.matches));
+                }
+                for (what, site, need) in clauses {
+                    if at(site) < need {
+                        return CaseOutcome::Fail(Failure::new(
+                            format!("C11:{}:too-few-polls-per-{}", mode, what.replace(' ', "-")),
+                            format!("{} mode polled the flag {} times at `{}`; the run has {} {}s ({:?})", mode, at(site), site, need, what, sites),
+                            d(json!({})),
+                        ));
+                    }
+                }
+            } else {
+                report.counters.push(("per-clause-poll-bounds-skipped:unknown-poll-site".into(), 1));
+            }
             if n < bound {
                 return CaseOutcome::Fail(Failure::new(
                     format!("C11:{}:too-few-polls", mode),
